@@ -17,13 +17,20 @@ import numpy as np
 
 from . import common
 from . import extract_c19
+from . import trans_c19
 
 PROP = "C19"
 INFO = dict(
 
     technique="Lean 4 proof (refinement of every lazy-list program to ordinary lists with provenance, by induction "
               "over programs; evaluation-count theorems for reads, iteration, generator prefixes and the Sequence "
-              "mix-ins; frame theorems over histories of operations and reads on aliased list objects) "
+              "mix-ins; frame theorems over histories of operations and reads on aliased list objects; CPython slice "
+              "arithmetic proved equal to the language reference's definition) "
+              "+ SOURCE TRANSLATION: the text of LazyList.__getitem__ / __len__ / map (and its nested `delayed`) / "
+              "repeat / copy / __add__ / init_from_iterable / init_from_index_callable and of glob_with_suffix / "
+              "importer_for_filepath / _import_glob_lazy_list / _import / _import_lazylist_attach_landmarks is translated into "
+              "Lean on every run (harness/trans_c19.py, py2lean2 + py2lean2g) and proved equal, for all arguments, to "
+              "the Core definitions the theorems are about (GenProps/C19Src*.lean) "
               "+ model/implementation correspondence on random programs, including the lists menpo's importers "
               "build on a scratch directory, + dispatch tables regenerated from the live code with decide obligations",
     level_text="Theorems over an executable model of LazyList: for every program built from map (both forms), "
@@ -32,27 +39,43 @@ INFO = dict(
                "(own base access, then each mapped function once) of the ordinary-list result (errors included); "
                "construction consults no callable; k reads evaluate k chains (no memo); iteration, generator prefixes, "
                "in/index/count/reversed evaluate exactly the stated elements once; no history of operations and reads "
-               "changes what an existing list returns or evaluates.  The model is tied to /repo by running the real "
+               "changes what an existing list returns or evaluates.  TRANSLATED rather than transcribed (14 functions, "
+               "source text of the working tree -> Generated/C19Src.lean, equality with the Core model re-proved by "
+               "lake build on every run): the whole __getitem__ dispatch, both map forms and `delayed`, repeat from "
+               "the primitives [x]*n / zip(*) / chain(*), copy, +, both constructors, the suffix filter, the importer "
+               "choice (while / pop loop), the max_assets window / both refusals / generator form of "
+               "_import_glob_lazy_list and the per-frame resolver mapping of import_video; `progSrc` (every operation "
+               "of a program = the translated code) is proved equal to the program model, so the refinement theorems "
+               "speak about the translated source.  The model is also tied to /repo by running the real "
                "LazyList and the real importers with instrumented callables on random programs and diffing values, "
                "lengths, error kinds and evaluation logs against the Lean driver, and by decide obligations over the "
                "argument-dispatch and receiver-write tables regenerated from the live code; an independent "
                "ordinary-list oracle decides the property on the real code.",
     level_note="Trusted: Lean kernel; axioms propext/Classical.choice/Quot.sound; the Python harness and the "
-               "driver's parser; CPython list/slice/pathlib semantics are modelled (Core/PyData.lean, the sorted "
-               "directory listing is an input of the glob model) and exercised by the correspondence, not verified.",
+               "driver's parser; the translator (harness/py2lean2.py, py2lean2g.py) and the C19 rule table "
+               "(harness/trans_c19.py); CPython list/partial/pathlib semantics are modelled (Core/PyData.lean, "
+               "Core/C19Py.lean; the sorted directory listing is an input of the glob model) and exercised by the "
+               "correspondence, not verified.",
     rule="random programs (depth<=10, base lists of length 0..7, all constructors incl. init_from_iterable, the glob "
          "importers over a scratch directory, import_video frame lists, a + a on one object, identity maps, "
          "repeat(<=0), all index container kinds); a case is one program (or one heap history / generator run / "
          "non-callable chain); distinct = distinct token sequence; non-trivial = depth >= 2 (history: >= 3 objects)",
-    partial=["that the CPython list / functools.partial / pathlib primitives the code is built from behave as "
-             "Core/PyData.lean and the glob model say (list indexing and slicing, sorted directory listing, "
-             "`[cs] * n`, `zip`, `chain`) is modelled and exercised by the correspondence, not verified",
-             "shuffle=True and verbose=True of the importers, and pickling of lazy lists, are outside the model "
-             "(not named by the property); LazyLists holding a local closure (after map, or init_from_iterable "
-             "without f) cannot be pickled at all - recorded in the evidence notes, not judged"],
+    partial=["the CPython primitives are DEFINED in the model, not verified against CPython: list.__getitem__ "
+             "(Core/PyData.lean; its slice arithmetic is proved equal to the language reference's definition, "
+             "sliceIndices_eq_ref), [x]*n / zip(*) / chain(*) / range / functools.partial (Core/C19Py.lean; "
+             "chain_zip_mul proves repeat from them), the sorted pathlib listing (an input of the glob model); `_pathlib_glob_for_pattern`, "
+             "`_possible_extensions_from_filepath` and `_import_object_attach_landmarks` are not translated; the "
+             "per-element callable `_import` is translated symbolically (which object flows where: is_file refusal, "
+             "importer choice, the two attach guards, list wrapping / unwrapping; path attachment dropped) and "
+             "genImport_thunk shows that the vocabulary word `partial(_import, ...)` denotes what it returns",
+             "shuffle=True and verbose=True of the importers are covered by the translated _import_glob_lazy_list "
+             "(genImportGlob_eq, random.shuffle as a parameter) but not by the correspondence; pickling of lazy lists "
+             "is outside the model (not named by the property); LazyLists holding a local closure (after map, or "
+             "init_from_iterable without f) cannot be pickled at all - recorded in the evidence notes, not judged"],
     assumptions=["callables are deterministic functions of their argument (instrumented test callables)"],
     design_ref="DESIGN.md section 6, C19")
-IMPORTS = ["MenpoModel.Props.C19", "MenpoModel.GenProps.C19"]
+IMPORTS = ["MenpoModel.Props.C19", "MenpoModel.GenProps.C19", "MenpoModel.GenProps.C19Src",
+           "MenpoModel.GenProps.C19SrcRefine"]
 THEOREMS = [
     "MenpoModel.LazyList.lazy_refines_list",
     "MenpoModel.LazyList.lazy_length_eq",
@@ -126,8 +149,40 @@ THEOREMS = [
     "MenpoModel.LazyList.map_each_iff",
     "MenpoModel.LazyList.map_single_iff",
     "MenpoModel.LazyList.add_total",
+    # Props/C19Slice.lean
+    "MenpoModel.PyData.sliceStart_eq_ref",
+    "MenpoModel.PyData.sliceStop_eq_ref",
+    "MenpoModel.PyData.sliceCount_spec",
+    "MenpoModel.PyData.sliceCount_le",
+    "MenpoModel.PyData.sliceIndices_eq_ref",
+    "MenpoModel.LazyList.slice_resolve_ref",
+    # Props/C19Py.lean
+    "MenpoModel.LazyList.zipStar_replicate",
+    "MenpoModel.LazyList.chain_zip_mul",
+    "MenpoModel.LazyList.seqE_listGetInt",
+    "MenpoModel.LazyList.getitemFull_ints",
+    "MenpoModel.LazyList.getitemFull_slice",
+    "MenpoModel.LazyList.getitemFull_sel",
+    "MenpoModel.LazyList.getitemFull_int",
+    "MenpoModel.LazyList.getitemFull_npInt",
+    "MenpoModel.LazyList.getitemFull_readAt",
+    "MenpoModel.LazyList.getitem_wrap_never_elem",
+    "MenpoModel.LazyList.getitemFull_lazy",
+    "MenpoModel.LazyList.getitemFull_outcome",
+    "MenpoModel.LazyList.mapFull_single",
+    "MenpoModel.LazyList.mapFull_list",
+    "MenpoModel.LazyList.mapFull_dispatch",
+    "MenpoModel.LazyList.addFull_dispatch",
+    "MenpoModel.LazyList.ops_construct_only",
+    # Props/C19PyIO.lean
+    "MenpoModel.LazyList.foldl_append_filter",
+    "MenpoModel.LazyList.whileG_findSome_eq",
+    "MenpoModel.LazyList.findSome?_dictGet",
+    "MenpoModel.LazyList.sliceTo_pos",
+    "MenpoModel.LazyList.sliceTo_none",
 ]
 GEN_THEOREMS = ["MenpoModel.GenProps.C19." + t for t in extract_c19.OBLIGATIONS]
+SRC_THEOREMS = ["MenpoModel.GenProps.C19Src." + t for t in trans_c19.OBLIGATIONS]
 
 JUDGE_ZERO_D = True
 IDENT = 7          # function id of the (logged) identity
@@ -563,15 +618,38 @@ def call_importer(p, w, as_generator=False):
     pat, _ = g_files(p)
     if p[2] % 2 == 1:
         pat = Path(pat)
-    if fam in ("pk", "em"):
-        return mio.import_pickles(pat, max_pickles=mx, as_generator=as_generator)
-    if fam == "lm":
-        return mio.import_landmark_files(pat, max_landmarks=mx, as_generator=as_generator)
-    if fam == "im":
-        return mio.import_images(pat, max_images=mx, landmark_resolver=w.image_resolver() if res else None,
-                                 normalize=norm, as_generator=as_generator)
-    return mio.import_videos(pat, max_videos=mx, landmark_resolver=w.video_resolver() if res else None,
-                             normalize=norm, as_generator=as_generator)
+    # verbose=True (a third of the leaves, fixed by the program): the translated _import_glob_lazy_list says it changes
+    # nothing but what is printed (print / print_progress); the output is swallowed, also while a generator is consumed
+    verbose = (p[2] + (mx or 0) + len(fam)) % 3 == 0
+    import contextlib
+    import io
+
+    def call():
+        if fam in ("pk", "em"):
+            return mio.import_pickles(pat, max_pickles=mx, as_generator=as_generator, verbose=verbose)
+        if fam == "lm":
+            return mio.import_landmark_files(pat, max_landmarks=mx, as_generator=as_generator, verbose=verbose)
+        if fam == "im":
+            return mio.import_images(pat, max_images=mx, landmark_resolver=w.image_resolver() if res else None,
+                                     normalize=norm, as_generator=as_generator, verbose=verbose)
+        return mio.import_videos(pat, max_videos=mx, landmark_resolver=w.video_resolver() if res else None,
+                                 normalize=norm, as_generator=as_generator, verbose=verbose)
+    if not verbose:
+        return call()
+    with contextlib.redirect_stdout(io.StringIO()):
+        r = call()
+    if not as_generator:
+        return r
+
+    def quiet(g):
+        while True:
+            with contextlib.redirect_stdout(io.StringIO()):
+                try:
+                    x = next(g)
+                except StopIteration:
+                    return
+            yield x
+    return quiet(r)
 
 
 def impl_build(p, w, nodes):
@@ -1018,6 +1096,13 @@ def noncallable_case(ctx, rng, lines, pending):
         ll = impl_build(sub, w, nodes)
     except Exception:      # noqa: BLE001
         return
+    from menpo.base import LazyList
+    if not isinstance(ll, LazyList):
+        # an operation on lazy lists returned something that is not a lazy list (seeded C19-3): an oracle failure of
+        # this case, not a harness crash further down
+        ctx.fail(site, "not-a-lazy-list", "the program builds a %s instead of a LazyList" % type(ll).__name__,
+                 {"program": toks(sub), "program_tree": repr(sub)})
+        return
     chain, p = [], sub
     BAD = 99
     pos = rng.randint(0, 2)
@@ -1245,6 +1330,9 @@ def heap_history(ctx, rng, lines, pending):
             if not ctx.check(got_err == exp_err, site, "error-kind",
                              "operation %r: ordinary lists give %s, LazyList gives %s" % (ops_tok[-1], exp_err or "ok", got_err or "ok"), rp):
                 return
+            if got_err is None and not isinstance(r, LazyList):
+                ctx.fail(site, "not-a-lazy-list", "operation %r returned a %s instead of a LazyList" % (ops_tok[-1], type(r).__name__), rp)
+                return
             if got_err is None:
                 objs.append(r)
                 refs.append(ref)
@@ -1330,6 +1418,46 @@ def generated(ctx):
         ctx.broken_obligations[-1]["obligation"] = "MenpoModel.GenProps.C19 (" + " / ".join(extract_c19.OBLIGATIONS) + ")"
         ctx.broken_obligations[-1]["observed"] = t
     return ok
+
+
+def generated_src(ctx):
+    """the SOURCE TRANSLATION of LazyList and of the list-building importer functions (harness/trans_c19.py): the text
+    of the working tree is rewritten into Generated/C19Src.lean and GenProps/C19Src.lean must still prove every
+    translated definition equal to the Core definition the theorems are about"""
+    files, reasons = trans_c19.generated_files()
+    ctx.notes["source_translation"] = {
+        "functions": trans_c19.FUNCTIONS, "untranslatable": reasons,
+        "obligations": ["MenpoModel.GenProps.C19Src." + t for t in trans_c19.OBLIGATIONS]}
+    n0 = len(ctx.broken_obligations)
+    ok = common.build_generated(ctx, files, trans_c19.GEN_TARGETS, len(trans_c19.OBLIGATIONS))
+    ctx.case(("source-translation",), nontrivial=True)
+    if not ok and len(ctx.broken_obligations) > n0:
+        b = ctx.broken_obligations[-1]
+        b["obligation"] = "MenpoModel.GenProps.C19Src (translated source = Core model): " + " / ".join(trans_c19.OBLIGATIONS)
+        b["untranslatable"] = reasons
+    return ok
+
+
+def generated_all(ctx):
+    """both regenerated files, ONE `lake build` (one wait for the shared build lock) when everything still proves;
+    only a failure is attributed by building the two groups separately.  Returns (ok_tables, ok_src)."""
+    t = extract_c19.live_tables(receiver_write_table())
+    files, _reasons = trans_c19.generated_files()
+    changed = common.write_if_changed(os.path.join(common.LEAN, extract_c19.GEN_FILE), extract_c19.generated_text(t))
+    for rel, text in files.items():
+        changed = common.write_if_changed(os.path.join(common.LEAN, rel), text) or changed
+    ok, _out = common.lake_build(list(extract_c19.TARGETS) + list(trans_c19.GEN_TARGETS))
+    if ok:
+        ctx.notes["receiver_write_table"] = t["writes"]
+        ctx.notes["getitem_dispatch_observed"] = {r["name"]: r["observed"] for r in t["getitem"]}
+        ctx.notes["source_translation"] = {
+            "functions": trans_c19.FUNCTIONS, "untranslatable": [],
+            "obligations": ["MenpoModel.GenProps.C19Src." + x for x in trans_c19.OBLIGATIONS]}
+        ctx.gen_obligations += extract_c19.N_OBLIGATIONS + len(trans_c19.OBLIGATIONS)
+        ctx.case(("dispatch-tables",), nontrivial=True)
+        ctx.case(("source-translation",), nontrivial=True)
+        return True, True
+    return generated(ctx), generated_src(ctx)
 
 
 def guarded(ctx, site, rp, fn, *args):
@@ -1516,11 +1644,18 @@ def run(ctx):
 
 
 def _run(ctx):
-    generated(ctx)
-    if ctx.broken_obligations:
-        common.prepare_lean(ctx, PROP, IMPORTS[:1], THEOREMS, targets=TARGETS)
-    else:
-        common.prepare_lean(ctx, PROP, IMPORTS, THEOREMS + GEN_THEOREMS, targets=TARGETS + ["MenpoModel.GenProps.C19"])
+    import time
+    t0 = time.time()
+    ok_tables, ok_src = generated_all(ctx)
+    t1 = t2 = time.time()
+    imports, theorems, targets = IMPORTS[:1], list(THEOREMS), list(TARGETS)
+    if ok_tables:
+        imports, theorems, targets = imports + IMPORTS[1:2], theorems + GEN_THEOREMS, targets + ["MenpoModel.GenProps.C19"]
+    if ok_src:
+        imports, theorems, targets = imports + IMPORTS[2:4], theorems + SRC_THEOREMS, targets + trans_c19.GEN_TARGETS[1:]
+    common.prepare_lean(ctx, PROP, imports, theorems, targets=targets)
+    ctx.notes["phase_wall_s"] = {"regenerated_files_and_obligations": round(t1 - t0, 1),
+                                 "build_and_audit": round(time.time() - t2, 1)}
     rng = ctx.rng
     n_prog = ctx.n(3000, 80000)
     lines, impl_out, progs, extras = [], {}, {}, {}
